@@ -349,6 +349,8 @@ class Sym:
                 p.calls.append((bb, path, args, c))
                 # a callee receiving &mut P may change P
                 for a in args:
+                    while a[0] == "cast":
+                        a = a[3]
                     if a[0] == "ref" and a[1]:
                         lv = a[2]
                         if lv[0] == "lv":
